@@ -200,6 +200,10 @@ func (c RawConfiguration) handleCorrectableCall(ctx context.Context, corr *Corre
 			}
 			replies[r.nid] = r.msg
 			if resp, rlevel, quorum = state.data.QuorumFunction(state.data.Message, replies); quorum {
+				if rlevel < clevel {
+					// published levels never decrease
+					rlevel = clevel
+				}
 				corr.set(resp, rlevel, nil, true)
 				return
 			}
